@@ -32,9 +32,10 @@ def cases(tier, seed):
         k = i % 10
         kind = 'small-strict' if k < 4 else 'small-ext' if k < 7 else 'corpus' if k < 8 else 'union'
         out.append({'prop': ID, 'seed': seed, 'idx': i, 'kind': kind, 'tier': tier})
-    order = {'corpus': 0, 'union': 1, 'small-ext': 2, 'small-strict': 3}
-    out.sort(key=lambda c: order[c['kind']])
-    return out
+    big = [c for c in out if c['kind'] in ('corpus', 'union')]
+    head = big[:120]
+    hs = {id(c) for c in head}
+    return head + [c for c in out if id(c) not in hs]
 
 
 def run_case(case):
@@ -61,7 +62,7 @@ def run_case(case):
         weakly = rng.random() < 0.3
         sig, conds = corpus.union_base(rng, parts=rng.randint(3, 6), want='weak' if weakly else 'strong')
     else:
-        files = corpus.random_large(20 if case.get('tier') == 'quick' else 60)
+        files = corpus.random_large(20 if case.get('tier') == 'quick' else 40)
         a, c, i, path = files[rng.randrange(len(files))]
         src = path.split('/examples/')[-1]
         _, sig, conds = corpus.load(path)
@@ -70,7 +71,8 @@ def run_case(case):
     bdesc = {'source': src, 'atoms': len(sig), 'conditionals': len(conds)}
     if len(conds) <= 8:
         bdesc.update(base_desc(sig, conds))
-    cfgs = [c for c in impl.CONFIGS if not (c[0] == 'c-inference' and (weakly or len(conds) > 25))]
+    cfgs = [c for c in impl.CONFIGS if not (c[0] == 'c-inference' and (weakly or len(conds) > 25))
+            and not (c[1] == 'z3' and len(sig) > 30)]
     if not small:
         cfgs = rng.sample(cfgs, 3)
     atoms = sig if len(sig) <= 8 else rng.sample(sig, 8)
